@@ -81,7 +81,7 @@ func checkPlanMore(prop, tier string, n func(int, int) int, comp map[string][]st
 			Batches: []batchSpec{
 				{Label: "sched", Engine: "sched", Prop: "C10", Runs: n(2000, 60000), FaultFree: true, Share: 2},
 				{Label: "sched-finegrain", Engine: "sched", Prop: "C10", Mode: "fg", Bin: "fg", Runs: n(0, 20000), FaultFree: true, Share: 2},
-				{Label: "finegrain-pair-sweep", Engine: "sched", Prop: "C10", Mode: "fgpair:%d/1", Bin: "fg", Runs: n(0, 1500), FaultFree: true},
+				{Label: "finegrain-pair-sweep", Engine: "sched", Prop: "C10", Mode: "fgpair:%d/1000000", Bin: "fg", Runs: n(0, 1500), FaultFree: true},
 				{Label: "race-gomaxprocs1", Engine: "sched", Prop: "C10", Mode: "free", Race: true, MaxProcs: 1, Runs: n(20, 150), FaultFree: true},
 				{Label: "race-gomaxprocs4", Engine: "sched", Prop: "C10", Mode: "free", Race: true, MaxProcs: 4, Runs: n(24, 150), FaultFree: true},
 				{Label: "race-gomaxprocs16", Engine: "sched", Prop: "C10", Mode: "free", Race: true, MaxProcs: 16, Runs: n(30, 200), FaultFree: true},
